@@ -154,11 +154,23 @@ def outcome(impl, model, spec, *, spec_ok=None, model_ok=None, undetermined=Fals
                    undetermined=bool(undetermined), hyp=bool(hyp), features=sorted(set(features)), note=note)
 
 
+def limit_memory():
+    """a runaway allocation of the code under test must fail with MemoryError in that process, not take the machine
+    (or a neighbouring process) down through the OOM killer"""
+    import resource
+
+    cap = int(os.environ.get("VERIF_MEM_GB", "6")) << 30
+    soft, hard = resource.getrlimit(resource.RLIMIT_AS)
+    if soft == resource.RLIM_INFINITY or soft > cap:
+        resource.setrlimit(resource.RLIMIT_AS, (cap, hard))
+
+
 class Ctx:
     """per-worker context handed to Prop.evaluate"""
 
     def __init__(self):
         self.driver = Driver()
+        limit_memory()
         self._tmp = None
 
     def tmpdir(self) -> Path:
